@@ -11,14 +11,14 @@ for d in sorted(glob.glob(os.path.join(HERE, "seeded", "C*"))):
     mp = os.path.join(d, "meta.json")
     m = json.load(open(mp))
     if sel in name:
-        r = subprocess.run([os.path.join(HERE, "tools", "seed_check.sh"), os.path.join(d, "patch.diff")], capture_output=True, text=True)
+        r = subprocess.run([os.path.join(HERE, "tools", "patch_check.sh"), os.path.join(d, "patch.diff")], capture_output=True, text=True)
         if r.returncode == 2 or "patch does not apply" in r.stdout or "does not compile" in r.stdout:
             print(name, "NOT EVALUATED:", r.stdout.strip()[-200:])
             fired = None
         else:
             fired = sorted({l.strip() for l in r.stdout.splitlines() if " key: " in l})
         if fired is not None:
-            m["checks_now"] = {"how": "tools/seed_check.sh (git -C /repo apply; ./check Cxx for all 18; git -C /repo checkout -- .)", "fired": fired}
+            m["checks_now"] = {"how": "tools/patch_check.sh (scratch copy of /repo + patch; ./check Cxx for all 18)", "fired": fired}
             json.dump(m, open(mp, "w"), indent=1)
     fired = m.get("checks_now", {}).get("fired", [])
     own = [f for f in fired if f.split()[0] == m["property"]]
